@@ -954,6 +954,9 @@ def np_array(I, x, dtype=None, order=None, **k):
         return x.m_copy(I)
     if isinstance(x, (list, tuple)):
         return NpArr(list(x))
+    if isinstance(x, Model) and "ndarray" in getattr(x, "py_classes", ()) + tuple(getattr(type(x), "py_classes", ())) or (isinstance(x, Model) and hasattr(x, "m_copy") and k.get("copy", True) is not False):
+        if hasattr(x, "m_copy") and k.get("copy", True) is not False:
+            return x.m_copy(I)  # np.array(a) of an array is a copy of it
     raise Unsupported("np.array of %r" % type(x).__name__)
 
 
@@ -1052,7 +1055,7 @@ BUILTINS = {n: PyBuiltin(n, f) for n, f in {
     "len": py_len, "max": py_max, "min": py_min, "sum": py_sum, "isinstance": py_isinstance, "range": py_range,
     "list": py_list, "enumerate": py_enumerate, "zip": py_zip, "abs": py_abs, "float": py_float, "int": py_int,
     "round": py_round, "hash": py_hash, "print": py_print, "sorted": py_sorted, "any": py_any, "all": py_all,
-    "tuple": lambda I, x=(): tuple(I.iterate(x)), "dict": lambda I, x=None, **k: dict(x or {}, **k),
+    "tuple": lambda I, x=(): tuple(I.iterate(x)), "dict": lambda I, x=None, **k: (x.m_copy(I) if isinstance(x, Model) and hasattr(x, "m_copy") and not k else dict(x or {}, **k)),
     "set": lambda I, x=(): _mkset(I, x, frozen=False), "frozenset": lambda I, x=(): _mkset(I, x),
     "str": lambda I, x="": x if isinstance(x, str) else "<str>", "reversed": lambda I, x: py_reversed(I, x),
     "map": lambda I, f, *xs: (xs[0].map(I, "map(%s)" % xs[0].key, lambda v: I.call(f, [v], {})) if len(xs) == 1 and isinstance(xs[0], SymSeq)
